@@ -542,11 +542,31 @@ func checkC01(c *Ctx) {
 			continue
 		}
 		n, ok := 0, true
+		// the function itself and helpers it hands its operand values (runtime.Element parameters) to
+		scope := []*ssa.Function{f}
 		for _, in := range instrsOf(f) {
-			if ta, isTA := in.(*ssa.TypeAssert); isTA && namedTypeIs(ta.AssertedType, "pkg/value", "Number") {
-				n++
-				if !assertIsTested(ta) {
-					ok = false
+			call, isCall := in.(*ssa.Call)
+			if !isCall {
+				continue
+			}
+			h := call.Call.StaticCallee()
+			if h == nil || h.Pkg != f.Pkg || h.Blocks == nil || h == f {
+				continue
+			}
+			for _, a := range call.Call.Args {
+				if par, isPar := a.(*ssa.Parameter); isPar && isElementIface(par.Type()) {
+					scope = append(scope, h)
+					break
+				}
+			}
+		}
+		for _, g := range scope {
+			for _, in := range instrsOf(g) {
+				if ta, isTA := in.(*ssa.TypeAssert); isTA && namedTypeIs(ta.AssertedType, "pkg/value", "Number") {
+					n++
+					if !assertIsTested(ta) {
+						ok = false
+					}
 				}
 			}
 		}
@@ -586,10 +606,49 @@ func isZeroConst(v ssa.Value) bool {
 }
 
 func fromParam(v ssa.Value, p *ssa.Parameter) bool {
+	return fromParamD(v, p, 2)
+}
+
+func fromParamD(v ssa.Value, p *ssa.Parameter, depth int) bool {
 	if call, ok := v.(*ssa.Call); ok && len(call.Call.Args) == 1 {
 		// getter on a value derived from the parameter (e.g. vl.GetValue())
 		if sc := call.Call.StaticCallee(); sc != nil && sc.Name() == "GetValue" {
-			return fromParam(call.Call.Args[0], p)
+			return fromParamD(call.Call.Args[0], p, depth)
+		}
+	}
+	// one result of an operand-extraction helper: the result derives from one of the helper's parameters on every
+	// successful return, and the corresponding argument derives from p
+	if ex, ok := v.(*ssa.Extract); ok && depth > 0 {
+		if call, ok := ex.Tuple.(*ssa.Call); ok {
+			if h := call.Call.StaticCallee(); h != nil && h.Blocks != nil && h.Pkg == p.Parent().Pkg {
+				res := h.Signature.Results()
+				errIdx := -1
+				if res.Len() > 0 && isErrorType(res.At(res.Len()-1).Type()) {
+					errIdx = res.Len() - 1
+				}
+				which := -1
+				okAll, nRet := true, 0
+				for _, b := range h.Blocks {
+					ret, isRet := b.Instrs[len(b.Instrs)-1].(*ssa.Return)
+					if !isRet || (errIdx >= 0 && provablyNonNilError(retValue(ret, errIdx))) {
+						continue
+					}
+					nRet++
+					found := -1
+					for j, hp := range h.Params {
+						if fromParamD(retValue(ret, ex.Index), hp, depth-1) {
+							found = j
+						}
+					}
+					if found < 0 || (which >= 0 && which != found) {
+						okAll = false
+					}
+					which = found
+				}
+				if okAll && nRet > 0 && which >= 0 && which < len(call.Call.Args) {
+					return fromParamD(call.Call.Args[which], p, depth-1)
+				}
+			}
 		}
 	}
 	return flowsFrom(v, func(x ssa.Value) bool { return x == ssa.Value(p) })
